@@ -1,14 +1,106 @@
-import PytaskModel.HashValue
+import PytaskProofs.Lemmas.HashValue
 import PytaskModel.PathNorm
 /-!
 # C12 — change detection sees content and identity only and separates different content
+
+Property theorems only.  `sha` stands for `hashlib.sha256(·).hexdigest()`, `md5` for
+`hashlib.md5(·).hexdigest()`.  What the theorems need of them is stated as hypotheses:
+
+* `hlen : ∀ b, (sha b).length = 64` — a hex digest has 64 characters;
+* `InjOn sha S` — no collision *inside a set `S` of byte strings*, together with the statement that the
+  byte strings actually hashed while fingerprinting the values at hand lie in `S` (`Covers`, `SigCovers`).
+  (Global injectivity would contradict `hlen`, so it is never assumed.)
+
+Vocabulary (`Lemmas/HashValue.lean`): `SameShape` — same kind at every position both values have;
+`PyEqH` — what Python's own `==`/`hash` cannot tell apart; `WidthOK` — numeric leaves at the same
+position of two sequences have equally long decimal hashes.
 -/
 namespace Pytask
 namespace Hash
 
-/-- **C12_state_missing.** A missing file has no state (`_get_state` returns `None`) and the memo is untouched. -/
-theorem C12_state_missing (sha md5 : Bytes → Str) (memo : Memo) (p : Str) :
-    stateOfFile sha md5 memo p none = (memo, none) := rfl
+variable (sha md5 : Bytes → Str)
+
+/-! ## `hash_value` -/
+
+/-- **hash_stable / content only.** `hash_value` is a closed function of the value (the model has no
+session input), and values Python cannot tell apart get the same fingerprint, whatever `sha` is. -/
+theorem C12_hash_resp (a b : PyVal) (h : PyEqH a b) : hashValue sha a = hashValue sha b :=
+  hashValue_resp sha a b h
+
+/-- **hash_inj_full** — the property at full strength: same-shape values with one fingerprint are
+indistinguishable for Python.  FALSE of the current code (F3), see `C12_hash_inj_full_false`. -/
+def C12_hash_inj_full : Prop :=
+  ∀ (sha : Bytes → Str), (∀ b, (sha b).length = 64) → ∀ (S : Bytes → Prop), InjOn sha S →
+    ∀ a b : PyVal, SameShape a b → Covers sha S a → Covers sha S b →
+      hashValue sha a = hashValue sha b → PyEqH a b
+
+/-- **F3.** `(1, 23)` and `(12, 3)` have the same shape, Python tells them apart, and they get the same
+fingerprint under *every* `sha`: the elements' decimal hashes are joined without a separator. -/
+theorem C12_hash_collision_witness (sha : Bytes → Str) :
+    hashValue sha (.tuple [.int 1, .int 23]) = hashValue sha (.tuple [.int 12, .int 3]) := by
+  have h : hashRenders sha [.int 1, .int 23] = ["1".toList, "23".toList] := by
+    simp only [hashRenders, hashValue, HV.render]; decide
+  have h' : hashRenders sha [.int 12, .int 3] = ["12".toList, "3".toList] := by
+    simp only [hashRenders, hashValue, HV.render]; decide
+  simp only [hashValue, h, h']
+  rfl
+
+theorem C12_hash_inj_full_false : ¬ C12_hash_inj_full := by
+  intro hfull
+  -- any length-64 `sha` will do: both values hash the single byte string "123"
+  let sha : Bytes → Str := fun _ => List.replicate 64 '0'
+  let S : Bytes → Prop := fun x => x = utf8 "123".toList
+  have hS : InjOn sha S := fun x y hx hy _ => hx.trans hy.symm
+  have hc1 : Covers sha S (.tuple [.int 1, .int 23]) := by
+    simp only [Covers, CoversL, and_true, S]; decide
+  have hc2 : Covers sha S (.tuple [.int 12, .int 3]) := by
+    simp only [Covers, CoversL, and_true, S]; decide
+  have := hfull sha (fun _ => by simp [sha]) S hS _ _ (by simp [SameShape, SameShapeL, PyVal.kind]) hc1 hc2
+    (C12_hash_collision_witness sha)
+  simp only [PyEqH, PyEqHL, PyVal.kind, PyVal.numHash, true_and, and_true] at this
+  exact absurd this.1 (by decide)
+
+/-- **hash_inj_partial.** Outside the F3 class the property holds: for same-shape values whose
+sequences are *fixed width* (numeric leaves at the same position have equally long decimal hashes;
+every other kind renders with a fixed width anyway), equal fingerprints imply that Python cannot
+tell the values apart — if `sha` has no collision among the byte strings hashed on the way. -/
+theorem C12_hash_inj_partial (hlen : ∀ b, (sha b).length = 64) (S : Bytes → Prop) (hS : InjOn sha S)
+    (a b : PyVal) (hs : SameShape a b) (hw : WidthOK a b) (ca : Covers sha S a) (cb : Covers sha S b)
+    (h : hashValue sha a = hashValue sha b) : PyEqH a b :=
+  hashValue_inj_aux sha hlen S hS a b hs hw ca cb h
+
+/-- **hash_inj_scalar.** For scalars (`None`, numbers, `str`, `bytes`, `Path`) the full statement holds. -/
+theorem C12_hash_inj_scalar (hlen : ∀ b, (sha b).length = 64) (S : Bytes → Prop) (hS : InjOn sha S)
+    (a b : PyVal) (ha : a.kind ≠ .tuple ∧ a.kind ≠ .list) (hs : SameShape a b)
+    (ca : Covers sha S a) (cb : Covers sha S b)
+    (h : hashValue sha a = hashValue sha b) : PyEqH a b := by
+  refine hashValue_inj_aux sha hlen S hS a b hs ?_ ca cb h
+  cases a <;> simp_all [PyVal.kind, WidthOK]
+
+/-- **state_sep for hashed values.** Different `str` contents get different `PythonNode` states. -/
+theorem C12_pystate_sep (S : Bytes → Prop) (hS : InjOn sha S) (s t : Str)
+    (hs : S (utf8 s)) (ht : S (utf8 t)) (hne : s ≠ t) :
+    statePythonNode sha (.str s) ≠ statePythonNode sha (.str t) := by
+  intro h
+  simp only [statePythonNode, hashValue, HV.render] at h
+  exact hne (sha_utf8_inj sha hS hs ht h)
+
+/-! ## CPython's `hash(int)` -/
+
+/-- **pyHashInt_range.** `hash(i)` lies strictly between ∓(2^61 - 1) and is never -1. -/
+theorem C12_pyHashInt_range (i : Int) :
+    -(pyHashModulus : Int) < pyHashInt i ∧ pyHashInt i < pyHashModulus ∧ pyHashInt i ≠ -1 :=
+  pyHashInt_range i
+
+/-- **pyHashInt_small.** Ints of magnitude below 2^61 - 1 other than -1 hash to themselves, so
+`hash_value` separates them. -/
+theorem C12_pyHashInt_small (i : Int) (h1 : -(pyHashModulus : Int) < i) (h2 : i < pyHashModulus)
+    (h3 : i ≠ -1) : pyHashInt i = i :=
+  pyHashInt_small h1 h2 h3
+
+/-- **pyHashInt_periodic.** `hash(i + (2^61 - 1)) = hash(i)` for `i ≥ 0`: what `PyEqH` identifies. -/
+theorem C12_pyHashInt_periodic (i : Int) (h : 0 ≤ i) : pyHashInt (i + pyHashModulus) = pyHashInt i :=
+  pyHashInt_periodic i h
 
 end Hash
 end Pytask
